@@ -34,7 +34,7 @@ func init() {
 					}
 				}
 			}
-			for _, c := range []string{"with_variables", "with_if", "with_dne", "res_dne", "kleene_checked", "plain_checked", "option_reused_after_map_change", "variables_in_two_maps"} {
+			for _, c := range []string{"with_variables", "with_if", "with_dne", "res_dne", "kleene_checked", "plain_checked", "option_reused_after_map_change", "option_reused_dne_entry_became_value", "option_reused_value_entry_became_dne", "variables_in_two_maps"} {
 				if m.C(c) == 0 {
 					u = append(u, c+" = 0")
 				}
@@ -179,8 +179,38 @@ func c20Run(w *W, idx int) {
 			delete(dne, "dne_2")
 			dne["dne_3"] = eval.DNE
 		}
+		// entries change kind: a variable that was unknown has been fetched (DNE -> value), a known one is invalidated
+		// (value -> DNE) - the fetch loop of a TryEval caller, on the maps the options hold
+		if len(dne) > 0 && r.Intn(2) == 0 {
+			for _, k := range []string{"dne_1", "dne_2"} {
+				if _, ok := dne[k]; ok && r.Intn(2) == 0 {
+					dne[k] = []interface{}{true, false, int64(4), int64(0), int(-6)}[r.Intn(5)]
+					w.Inc("option_reused_dne_entry_became_value")
+				}
+			}
+		}
+		if r.Intn(3) == 0 {
+			for _, k := range []string{"n2", "bf", "n0", "bt"} {
+				if _, ok := vals[k]; ok && r.Intn(2) == 0 {
+					vals[k] = eval.DNE
+					w.Inc("option_reused_value_entry_became_dne")
+				}
+			}
+		}
 		reused = true
 		w.Inc("option_reused_after_map_change")
+		// the oracle goes by what the entries hold now (the options keep the map objects they were built with)
+		vals2, dne2 := map[string]interface{}{}, map[string]interface{}{}
+		for _, m := range []map[string]interface{}{vals, dne} {
+			for k, v := range m {
+				if isDNE(v) {
+					dne2[k] = v
+				} else {
+					vals2[k] = v
+				}
+			}
+		}
+		vals, dne = vals2, dne2
 	}
 	var res eval.GenExprResult
 	gen := rand.New(rand.NewSource(seed))
